@@ -64,6 +64,7 @@ struct FnInfo<'a> {
     closures: Vec<Value>,
     macros: Vec<Value>,
     awaits: usize,
+    await_spans: Vec<Value>,
     depth_closure: usize,
     stmt_stack: Vec<(usize, usize)>,
     /// spans of the closures / async blocks that enclose the current node (outermost first)
@@ -198,6 +199,10 @@ impl<'a, 'ast> Visit<'ast> for FnInfo<'a> {
     }
     fn visit_expr_await(&mut self, e: &'ast syn::ExprAwait) {
         self.awaits += 1;
+        // T17 (reply log): `X.send(M).await` — the span of the await and of the call it awaits
+        let (a, b) = self.src.span(e.span());
+        let (ba, bb) = self.src.span(e.base.span());
+        self.await_spans.push(json!({"start": a, "end": b, "base": {"start": ba, "end": bb}}));
         syn::visit::visit_expr_await(self, e);
     }
     fn visit_macro(&mut self, m: &'ast syn::Macro) {
@@ -294,9 +299,13 @@ fn is_pure_ctor(e: &syn::Expr) -> bool {
         syn::Expr::Path(_) | syn::Expr::Lit(_) => true,
         syn::Expr::Paren(p) => is_pure_ctor(&p.expr),
         syn::Expr::Tuple(t) => t.elems.iter().all(is_pure_ctor),
+        // `self.path.clone()`: a copy of a field reads nothing the waited future writes before the handler's answer is built
+        syn::Expr::MethodCall(m) => m.method == "clone" && m.args.is_empty() && matches!(&*m.receiver, syn::Expr::Field(_) | syn::Expr::Path(_)),
         syn::Expr::Call(c) => {
             let ok = if let syn::Expr::Path(p) = &*c.func {
-                p.path.segments.last().map(|s| { let n = s.ident.to_string(); n == "Ok" || n == "Err" || n == "Some" }).unwrap_or(false)
+                // `Ok` / `Err` / `Some`, or an enum variant / tuple struct constructor (`Resp::Path(..)`: upper-case last segment)
+                p.path.segments.last().map(|s| { let n = s.ident.to_string(); n == "Ok" || n == "Err" || n == "Some"
+                    || (p.path.segments.len() >= 2 && n.chars().next().map(|c| c.is_uppercase()).unwrap_or(false)) }).unwrap_or(false)
             } else { false };
             ok && c.args.iter().all(is_pure_ctor)
         }
@@ -433,6 +442,7 @@ fn sig_json(src: &Src, sig: &syn::Signature, block: Option<&syn::Block>) -> Valu
             closures: vec![],
             macros: vec![],
             awaits: 0,
+            await_spans: vec![],
             depth_closure: 0,
             stmt_stack: vec![],
             encl: vec![],
@@ -460,6 +470,7 @@ fn sig_json(src: &Src, sig: &syn::Signature, block: Option<&syn::Block>) -> Valu
         o.insert("chains".into(), Value::Array(fi.chains));
         o.insert("macros".into(), Value::Array(fi.macros));
         o.insert("awaits".into(), json!(fi.awaits));
+        o.insert("await_spans".into(), Value::Array(fi.await_spans));
         o.insert("tail".into(), tail);
         o.insert("tail_spans".into(), tail_spans(src, b));
         o.insert("first_stmt".into(), first_stmt);
